@@ -707,7 +707,7 @@ def build_cases(rng, tier, rep):
         prog = prog_pow2(letters)
         d, _ = render(prog, rng, 'canon')
         add(Case(d, prog=prog, stream='exhaustive-canonical'))
-        if tier == 'thorough' and len(letters) == maxlen + 1 and rng.random() < 0.8:
+        if tier == 'thorough' and len(letters) == maxlen + 1 and rng.random() < 0.9:
             continue
         for _ in range(nvar):
             p2 = split_prog(prog_random(letters, rng, 3, edge=0.03), rng, 0.25)
@@ -715,7 +715,7 @@ def build_cases(rng, tier, rep):
             d2, _ = render(p2, rng, style)
             add(Case(d2, prog=p2, stream='exhaustive-respelled'))
     # random programs of length 5..40
-    nrand = 600 if tier == 'quick' else 10000
+    nrand = 600 if tier == 'quick' else 6000
     for i in range(nrand):
         n = rng.randint(5, 40)
         letters = ['M' if rng.random() < 0.8 else 'm'] + [rng.choice(LETTERS) for _ in range(n - 1)]
@@ -806,7 +806,7 @@ def run(rep, tier, seed, replay=None):
                                           for b in VARIANTS}
         if not consistent:
             best = min(VARIANTS, key=lambda b: len(disagree[b]))
-            for i in disagree[best][:3]:
+            for i in sorted(disagree[best], key=lambda i: len(cases[i].d))[:2]:
                 rep.violation('no variant of the model of _parse_path agrees with parse_path: variant (%s,%s) differs on %r'
                               % (VARIANTS[best] + (cases[i].d,)), rp(cases[i], kind='parser-tie', code=codes[i]),
                               key='parser-tie')
@@ -817,8 +817,8 @@ def run(rep, tier, seed, replay=None):
                 '' if len(consistent) == 1 else ' (not discriminated from %s on this run)' %
                 [VARIANTS[b] for b in consistent[1:]])
             th = {4: 'C02_refines_partial (hypotheses: no S/T directly after Z, no arc ending on the current point)',
-                  8: 'C02_refines_general with none_ok=true (hypothesis left: no arc ending on the current point)',
-                  16: 'C02_refines_general with coinc_ok=true (hypothesis left: no S/T directly after Z)',
+                  8: 'C02_refines_none_fixed_partial (hypothesis left: no arc ending on the current point)',
+                  16: 'C02_refines_arc_fixed_partial (hypothesis left: no S/T directly after Z)',
                   32: 'C02_refines (no side condition)'}[code_variant]
             rep.cov['applicable_theorem'] = th
             rep.notes.append('the code of /repo is variant (%s,%s) of impl_parse; applicable theorem: %s'
@@ -833,9 +833,9 @@ def run(rep, tier, seed, replay=None):
             key = classify(k, c)
             nviol += 1
             seen_keys.setdefault(key, []).append(i)
-        for key, idx in sorted(seen_keys.items()):
+        for key, idx in sorted(seen_keys.items(), key=lambda kv: (kv[0] not in ('spec-mismatch', 'spelling-other'), kv[0])):
             idx.sort(key=lambda i: len(cases[i].d))
-            for i in idx[:2]:
+            for i in idx[:1]:
                 c = cases[i]
                 what = {
                     'S-or-T-after-Z-TypeError': 'S/T directly after a closepath raises TypeError instead of starting at the current point',
